@@ -91,6 +91,12 @@ chk("C02",
     "Coq proof (finite case analysis over the decision model; transaction script) + regenerated guards tie + vm_compute correspondence + byte-level monitor",
     "DESIGN.md §4 C02")
 
+chk("C04",
+    "Coq theorems over the model of _import_file / update_import: symlinks, non-regular files, dot-files, transfer artefacts, paths through a symlinked directory, locked files (request stays pending), detector-rejected paths and non-canonical acquisition names never create a record or fire a rule; an import that goes through creates exactly the missing acquisition/file records and leaves one tracked copy (present+wanted, or suspect when a wanted copy had gone missing); with registration disabled nothing is registered; only relative canonical paths and resolvable in-tree scans get a task. Concurrency: for ANY number of tasks and ANY statement interleaving (statements atomic, unique indexes), the copy record is only ever absent / present+wanted / suspect+wanted, a successful task implies acquisition, file and copy exist, the step function is total (every IntegrityError handled) and every scheduled task advances. Tie: guards and the exact test sequences / INSERT fall-backs / file_walk symlink tests checked each run (T1); single import requests over path kinds x detector answers x register x pre-existing records, request vetting incl. symlink loops, scans of random real trees against os.walk+hashlib, synthetic watchdog events, and two real importers interleaved at execute_sql granularity, compared with the model in Coq / monitored (T2).",
+    "Coq kernel+VM; translator fragment; detector contract; sqlite statement atomicity and unique indexes; synthesised watchdog events",
+    "Coq proof (decision-function case analysis; invariant over all schedules of n tasks) + regenerated guards tie + vm_compute correspondence + tree-walk monitor",
+    "DESIGN.md §4 C04")
+
 ALL = [f"C{i:02d}" for i in range(1, 21)]
 NA_REASON = "check not yet built in this revision (planned: see DESIGN.md §7); nothing is claimed for it"
 
